@@ -9,7 +9,6 @@ import resolved_io
 import vlib
 
 GEN = []
-LEVEL = "translation_validation"   # until the scoping theorem (lower_scoped) is proved
 TRUSTED = [
     "Coq 8.16.1 kernel; no axioms",
     "coq/Back/IR.v + Back/Emit.v as the model of intermediate.rs + lua.rs: tied byte-for-byte to the real compiler's output on every run (all accepted programs of /repo/tests + generated programs), fed with the real resolver's output through the cfg-guarded hook sylt_compiler::verif::phases",
@@ -19,8 +18,12 @@ TRUSTED = [
     "modelled, not verified: that a Lua `local` is fresh per execution and captured by reference (Lua semantics; the dynamic half of C10 needs the Lua interpreter model)",
 ]
 ASSUMPTIONS = ["programs are compiled with --no-std and declare the externals they use (generated), or with std (tests)"]
-EXPLANATION = ("Static half of C10: every variable of the flat IR is introduced (as a Lua local, parameter or top-level external) "
-               "in an enclosing block before it is read or assigned, so no temporary is a Lua global shared between activations.")
+EXPLANATION = ("Static half of C10. Theorem C10_lower_scoped (Coq, all programs): if the resolved program is lexically scoped "
+               "(rs_resolved) then the lowered IR introduces every variable -- user variable or temporary -- as a Lua local, parameter or "
+               "top-level external in an enclosing block before it is read or assigned, and only real locals are assignment targets; so no "
+               "temporary is a Lua global shared between activations. The model is tied byte-for-byte to the real compiler's output and the "
+               "hypothesis is evaluated on the real resolver's output for every program of the tie; an independent scan of the real Lua text "
+               "looks for V-names outside any binding.")
 
 _m = {}
 
@@ -122,7 +125,8 @@ def tie(ctx):
     dist["resolved_level_scoping_rejected"] = len(rsbad)
     ctx.c10["rsbad"] = rsbad
     for i in rsbad[:3]:
-        vlib.log("rs_resolved = false:", cases[i][1][:300].replace("\n", "\\n"))
+        # the hypothesis of C10_lower_scoped fails on the real resolver's output: the theorem says nothing here
+        ctx.brk("hypothesis:rs_resolved", "the real resolver's output is not lexically scoped: " + cases[i][1][:300].replace("\n", "\\n"))
     samples = []
     for i, m, body, _ in rows[:2]:
         samples.append({"class": cases[i][0], "program": cases[i][1][:400], "lua_lines": len(body.split("\n"))})
